@@ -75,7 +75,8 @@ def shards(tier: str):
 
 def floors(tier: str):
     return {"crc:len1-2": 65792, "pattern:single": 1000, "pattern:double": 1000, "pattern:burst": 1000,
-            "e2e:model-error": 100, "e2e:probe-delivered": 100}
+            "e2e:model-error": 100, "e2e:probe-delivered": 100, "e2e:special-check-value:0": 20, "e2e:special-check-value:3": 20,
+            "crc:check-value-0000": 100}
 
 
 def _crc_violation(b: bytes, got, exp):
@@ -257,7 +258,30 @@ def check_e2e(gen: int, frames: list[bytes], victim: int, bits: list[int], probe
                            "model": {"frames": len(model.frames), "error": model.error, "incomplete": model.incomplete}})
 
 
+def _special_bits(gen: int, f: bytes, which: int) -> list[int]:
+    """Damage that leads to a special check value: (0) the last two data bytes are replaced so that the CRC computed
+    over the damaged bytes is exactly 0x0000 (the received check bytes stay as they were); (1) the received check
+    bytes are zeroed; (2) the two received check bytes are swapped; (3) both: computed CRC 0x0000 and received field
+    0xFFFF."""
+    s, _ = covered_span(gen, f)
+    cov, chk = f[s:-2], f[-2:]
+    new_cov, new_chk = cov, chk
+    hdr_in_cov = 6  # address(2) id type length(2)
+    if which in (0, 3) and len(cov) >= hdr_in_cov + 2:
+        c = refproto.crc16_modbus_int(cov[:-2])
+        new_cov = cov[:-2] + bytes([c & 0xFF, c >> 8])  # residue property: crc(x + crc_le(x)) == 0
+        if which == 3:
+            new_chk = b"\xff\xff"
+    elif which == 1 or which in (0, 3):
+        new_chk = b"\x00\x00"
+    elif which == 2:
+        new_chk = chk[::-1]
+    old, new = cov + chk, new_cov + new_chk
+    return [i * 8 + k for i in range(len(old)) for k in range(8) if ((old[i] ^ new[i]) >> (7 - k)) & 1]
+
+
 _pattern = st.one_of(
+    st.tuples(st.just("special"), st.integers(0, 3)),
     st.tuples(st.just("single"), st.integers(0, 1 << 20)),
     st.tuples(st.just("double"), st.integers(0, 1 << 20), st.integers(0, 1 << 20)),
     st.tuples(st.just("burst"), st.integers(0, 1 << 20), st.integers(2, 16), st.integers(0, 1 << 14)),
@@ -326,6 +350,15 @@ def run_shard(spec, seed: int, tier: str):
             for b in longs:
                 check_crc(b)
                 check_validate_length(b)
+                # inputs whose check value is the special 0x0000 (residue property) - and the swapped check value
+                c = refproto.crc16_modbus_int(b)
+                z = b + bytes([c & 0xFF, c >> 8])
+                check_crc(z)
+                stats.classes["crc:check-value-0000"] += 1
+                exp = refproto.crc16_modbus(b)
+                if exp[0] != exp[1] and CALC.validate(b, exp[::-1]) is not False:
+                    raise Violation("C06:validate-false", f"validate({b.hex()}, {exp[::-1].hex()}) (check bytes swapped) is not False",
+                                    {"part": "crc", "input": b.hex()})
                 stats.case(b.hex(), True, classes=["crc:long-random"],
                            sample={"input": b.hex()[:80], "len": len(b), "crc": refproto.crc16_modbus(b).hex()})
         per = 200
@@ -357,7 +390,12 @@ def run_shard(spec, seed: int, tier: str):
             pf = console_frames(gen, [m for _, m in probes], pid0=200)
             victim = vi % len(frames)
             s, _ = covered_span(gen, frames[victim])
-            bits = _bits_of(pattern, (len(frames[victim]) - s) * 8)
+            if pattern[0] == "special":
+                bits = _special_bits(gen, frames[victim], pattern[1])
+                if bits and stats is not None:
+                    stats.classes[f"e2e:special-check-value:{pattern[1]}"] += 1
+            else:
+                bits = _bits_of(pattern, (len(frames[victim]) - s) * 8)
             check_e2e(gen, frames, victim, bits, pf, stats)
         drive(stats, lambda s: given_test(_e2e_strategy(gen), lambda c: stats.guard(body, c), s, spec["n"]), seed)
     return stats.result()
